@@ -217,7 +217,7 @@ def verify_unit(unit, tier):
     # a failure must persist with a larger solver budget (guards against solver instability)
     need_retry = any(r["fails"] or any(u[0] == "solver-budget" for u in r["undec"]) for r in runs) and not any(
         any(u[0] != "solver-budget" for u in r["undec"]) for r in runs)
-    if need_retry and len(arg_sets) == 1:
+    if need_retry and len(arg_sets) == 1 and "--rlimit" not in arg_sets[0]:
         runs.append(one(arg_sets[0], rlimit=60))
         attempts += 1
     # combine per obligation
